@@ -218,6 +218,40 @@ func natOf(s string) string {
 	return "0 /- unparsed: " + s + " -/"
 }
 
+// the table of integer kinds (integers.go: integerKindToInfo), one line per kind
+func kindTable(p *pkgInfo) []string {
+	var out []string
+	for _, f := range p.files {
+		ast.Inspect(f, func(n ast.Node) bool {
+			vs, ok := n.(*ast.ValueSpec)
+			if !ok || len(vs.Names) != 1 || vs.Names[0].Name != "integerKindToInfo" || len(vs.Values) != 1 {
+				return true
+			}
+			cl, ok := vs.Values[0].(*ast.CompositeLit)
+			if !ok {
+				return true
+			}
+			for _, e := range cl.Elts {
+				kv, ok := e.(*ast.KeyValueExpr)
+				if !ok {
+					continue
+				}
+				line := exprText(p.fset, kv.Key) + ":"
+				if v, ok := kv.Value.(*ast.CompositeLit); ok {
+					for _, fe := range v.Elts {
+						if fkv, ok := fe.(*ast.KeyValueExpr); ok {
+							line += " " + exprText(p.fset, fkv.Key) + "=" + exprText(p.fset, fkv.Value)
+						}
+					}
+				}
+				out = append(out, line)
+			}
+			return false
+		})
+	}
+	return out
+}
+
 func emitConsts(p *pkgInfo) string {
 	var b strings.Builder
 	b.WriteString("/- GENERATED by extract from /repo's current source: do not edit. -/\nnamespace Rapid.Generated\n\n")
@@ -249,6 +283,7 @@ func emitConsts(p *pkgInfo) string {
 	fmt.Fprintf(&b, "def src_findBug_loopCond : String := %s\n", leanStr(findLoopCond(p)))
 	fmt.Fprintf(&b, "def src_checkTB_passCond : String := %s\n", leanStr(findPassCond(p)))
 	fmt.Fprintf(&b, "def src_seedStep : String := %s\n", leanStr(findSeedStep(p)))
+	fmt.Fprintf(&b, "def src_integerKinds : List String := %s\n", leanList(kindTable(p)))
 	b.WriteString("\nend Rapid.Generated\n")
 	return b.String()
 }
